@@ -928,8 +928,15 @@ pub fn check_properties(node: &MonNode, obs: &NodeObs, tally: &mut Tally, corrup
                     }
                 }
             }
-            if unsupported {
+            if exprs.iter().any(|e| e.downcast_ref::<datafusion_physical_expr::expressions::UnKnownColumn>().is_some()) {
+                // the engine's own marker for "partitioned on something that is not an output column": nothing to evaluate
+                tally.add("hash_partitionings_on_unknown_column", &name, 1);
+            } else if unsupported {
                 tally.add("hash_partitionings_uninterpreted", &name, 1);
+                if std::env::var("PLANMON_DEBUG").is_ok() {
+                    let errs: Vec<String> = runs.iter().flat_map(|r| r.batches.iter()).filter(|b| b.num_rows() > 0).take(1).flat_map(|b| exprs.iter().map(move |e| match e.evaluate(b) { Ok(v) => format!("{} -> {}", e, v.data_type()), Err(x) => format!("{} -> ERR {}", e, x) })).collect();
+                    eprintln!("UNINTERPRETED hash partitioning at {}: {} | schema {:?} | {:?}", node_json(node)["display"], props.partitioning, node.inner.schema().fields().iter().map(|f| f.name().clone()).collect::<Vec<_>>(), errs);
+                }
             } else {
                 tally.add("hash_partitionings_checked", &name, 1);
                 if parts_with_rows.len() > 1 {
@@ -2171,6 +2178,11 @@ fn finding_kind(sig: &str) -> &str {
     // a wrong equivalence class and a wrong constant are the same family (a class with a literal member IS a constant)
     if k == "equivalence-violated" || k == "constant-violated" {
         "value-violated"
+    } else if k.starts_with("stats-registry-exact-") {
+        // statistics are derived from the child's statistics of every kind (a wrong row count makes a wrong sum)
+        "stats-registry-exact"
+    } else if k.starts_with("stats-exact-") {
+        "stats-exact"
     } else {
         k
     }
